@@ -8,13 +8,14 @@ what the public import functions do on damaged files (metamorphic re-framing).
 Oracle: export -> import over key types x formats x ciphers x hashes x PBE versions x passphrases x
 comments, wrong passphrases, multi-key files, certificates, and a three-way differential with ssh-keygen and PyCA.
 
-Defects of the unchanged tree that this check reports (one precise signature each):
-  * comment-altered:openssh-public:line-break / comment-altered:rfc4716-public:line-break
-      export_public_key writes a comment containing b'\n' verbatim into a line-oriented format: the file
-      re-imports with another comment (RFC 4716: even other key bytes / not at all), and the rest of the comment
-      becomes a line of its own (a second "key" line in an authorized_keys-style file).
-      Lean witness: Props/C15.lean text_comment_linebreak_not_preserved.
-  * multi-key-file:der-after-text-block-dropped
+Defects found by this check:
+  * comment-altered:openssh-public:line-break / comment-altered:rfc4716-public:line-break  (FIXED in /repo, d8295f5)
+      export_public_key / export_certificate wrote a comment containing b'\n' verbatim into a line-oriented
+      format: the file re-imported with another comment (RFC 4716: even other key bytes / not at all) and the
+      rest of the comment became a line of its own.  The exporter now raises KeyExportError; a clean refusal is
+      the accepted outcome, silent alteration is still reported under these signatures.
+      Lean: export_refuses_linebreak_comment (flag probed on the tree), witness text_comment_linebreak_not_preserved.
+  * multi-key-file:der-after-text-block-dropped  (KNOWN finding F25)
       match_base64 ends its match *before* the newline that follows the footer, so the data handed to the next
       round of _decode_*_list starts with b'\n' and the DER sniffing (startswith 0x30) misses a DER key appended
       right after a PEM / RFC 4716 block with asyncssh's own append_private_key/append_public_key.
@@ -77,8 +78,9 @@ ASSUMPTIONS = [
     'PKCS#1 / PKCS#8 / DER formats have no comment field: comment preservation is required only of the OpenSSH '
     'private format, the OpenSSH public line and RFC 4716',
     'the OpenSSH public key line separates its fields by white space: a comment is carried up to leading/trailing '
-    'white space (theorem public_line_edge_whitespace_not_preserved); a line break inside a comment is NOT '
-    'accepted as a format limit because the export then silently writes a different file (reported)',
+    'white space (theorem public_line_edge_whitespace_not_preserved); a comment containing a newline must be '
+    'refused by the exporter with KeyExportError (accepted outcome: "reports failure") — silent alteration is a '
+    'violation',
     'sizes below 2^32 bytes for SSH strings and below 256^126 bytes for DER values (hypotheses of the theorems)',
     'security-key (sk-*) and X.509 key types are not generated in this environment',
 ]
@@ -481,7 +483,8 @@ def correspondence(ctx: Ctx) -> CorrResult:
     kg = keygen_files(ctx)
     second_pass: List[Tuple[str, Any, Any]] = []       # filled after the first driver pass
     for lab, key in keys:
-        for comment in [b'', b'user@host', gen_comment(rng, text_safe=True), gen_comment(rng)]:
+        for comment in [b'', b'user@host', gen_comment(rng, text_safe=True), gen_comment(rng),
+                        rng.choice([b'two\nlines', b'\n', b'x\r\ny', b'tail\n', b'a\rb'])]:
             k = fresh_copy(key)
             k.set_comment(comment)
             try:
@@ -494,12 +497,10 @@ def correspondence(ctx: Ctx) -> CorrResult:
                      'publine %s %s %s' % (hx(k.algorithm), hx(k.public_data), hx(comment))),
                     ('write:rfc4716', 'rfc4716', 'rfc4716 %s %s' % (hx(k.public_data), hx(comment)))]:
                 try:
-                    exported = k.export_public_key(wfmt)
+                    exported = 'ok ' + hx(k.export_public_key(wfmt))
                 except pkmod.KeyExportError:
-                    # a tree that refuses comments a line format cannot carry: nothing is written, nothing to compare
-                    hist.hit(wname + ':export-refused')
-                    continue
-                add(wname, wline, (hx(exported) if wfmt == 'openssh' else 'ok ' + hx(exported)))
+                    exported = 'refused'          # KeyExportError: the exporter reports that it cannot write this
+                add(wname + (':newline-comment' if b'\n' in comment else ''), wline, exported)
             # OpenSSH private container: parse asyncssh's file with the Lean model, then rebuild it
             text = k.export_private_key('openssh')
             add('read:openssh-private:framing', 'match priv ' + hx(text),
@@ -819,8 +820,11 @@ def check_public_roundtrip(key: Any, lab: str, fmt: str, comment: bytes) -> List
     what = '%s key, public format %s, comment %r' % (lab, fmt, comment)
     try:
         data = k.export_public_key(fmt)
-    except pkmod.KeyExportError:
-        return []
+    except pkmod.KeyExportError as e:
+        if fmt in COMMENT_FORMATS_PUB and b'\n' not in comment:
+            return [Failure('public-export-refused:%s' % fmt,
+                            'export_public_key(%r) refused a comment without a newline (%s): %s' % (fmt, e, what), rep)]
+        return []        # format not offered for the key type, or a clean refusal of a comment with a newline
     pub = k.convert_to_public()
     try:
         k2 = asyncssh.import_public_key(data)
@@ -1138,6 +1142,27 @@ def check_certificates(ctx: Ctx, keys: List[Tuple[str, Any]], d: str, rng: Any, 
             fails.append(Failure('comment-lost:certificate:%s' % fmt,
                                  'certificate comment %r came back as %r' % (comment, c2.get_comment_bytes()),
                                  dict(base, format=fmt, data=data.hex())))
+    for fmt in ('openssh', 'rfc4716'):
+        for hostile in (b'two\nlines', b'x\nssh-ed25519 AAAA injected', b'a\rb', b'mid\x0bdle'):
+            n += 1
+            cert.set_comment(hostile)
+            try:
+                data = cert.export_certificate(fmt)
+            except pkmod.KeyExportError:
+                if b'\n' not in hostile:
+                    fails.append(Failure('certificate-export-refused:%s' % fmt,
+                                         'export_certificate refused comment %r' % hostile, dict(base, format=fmt)))
+                continue
+            try:
+                got = asyncssh.import_certificate(data)
+                back = (got.get_comment_bytes() if got.has_comment() else b'') or b''
+            except Exception as e:
+                back = b'<import raises %s>' % type(e).__name__.encode()
+            if back != hostile:
+                fails.append(Failure('comment-altered:%s-certificate:%s' % (fmt, 'line-break' if b'\n' in hostile else 'other'),
+                                     'certificate comment %r came back as %r (silently)' % (hostile, back),
+                                     dict(base, format=fmt, hostile=hostile.hex())))
+    cert.set_comment(comment or None)
     line = cert.export_certificate('openssh')
     try:
         o = S.load_ssh_public_identity(line)
@@ -1373,6 +1398,22 @@ def oracle(ctx: Ctx) -> OracleResult:
             fails += fs
             res.evaluations += n
             hist.hit('ssh-keygen-writes', n)
+        # candidate (not yet classified by the lead, therefore a note and not a failure): RFC 4716 counts a bare
+        # CR as a line terminator; asyncssh writes it inside the quoted Comment header and reads it back itself,
+        # but ssh-keygen -i rejects the file
+        lab0, key0 = keys[0]
+        k0 = fresh_copy(key0)
+        k0.set_comment(b'a\rb')
+        try:
+            pth = write_file(os.path.join(d, 'cr_comment.pub'), k0.export_public_key('rfc4716'), 0o644)
+            rc, out, err = run_kg(['-i', '-m', 'RFC4716', '-f', pth])
+            res.evaluations += 1
+            if rc != 0 or line_blob(out)[1] != k0.public_data:
+                hist.hit('CANDIDATE:interop:ssh-keygen-rejects:public-rfc4716:carriage-return-in-comment')
+                res.notes.append('candidate: export_public_key("rfc4716") with comment b"a\\rb" is re-imported '
+                                 'by asyncssh but rejected by ssh-keygen -i -m RFC4716 (%s)' % err[:80])
+        except pkmod.KeyExportError:
+            hist.hit('public:rfc4716:carriage-return-comment-refused')
     else:
         res.notes.append('ssh-keygen not found: OpenSSH leg of the differential skipped')
 
